@@ -1,6 +1,6 @@
 (* Properties_C05.v — C05: routing picks exactly one action, in the documented order. *)
 From Coq Require Import String List Ascii ZArith.
-From QH Require Import Bytes Value SocketM Router SrvIO RouterSpec RouterProofs.
+From QH Require Import Bytes Value SocketM Router SrvIO RouterSpec RouterProofs Interleave.
 Import ListNotations.
 
 (* for EVERY handler tree, path and regexp engine: the calls the router makes on the socket are
@@ -65,3 +65,12 @@ Theorem C05_redirect_location_clean : forall rx redirs path loc,
   first_redirect rx redirs path = Some (Some loc) -> forallb plain loc = true.
 Proof. exact redirect_location_clean. Qed.
 Print Assumptions C05_redirect_location_clean.
+
+(* several connections served at once by one handler tree (the routing policy p is the same function for all of them: the
+   handlers keep no state between requests): for EVERY interleaving of their operations, each connection observes exactly
+   what it would observe alone - no request shows in another connection's answer *)
+Theorem C05_connections_independent : forall e p sched ss i s,
+  nth_error ss i = Some s ->
+  proj ev i (irun sock op ev (step e p) ss sched) = run sock op ev (step e p) s (ops_of op i sched).
+Proof. intros e p. exact (interleaving_independent sock op ev (step e p)). Qed.
+Print Assumptions C05_connections_independent.
